@@ -88,6 +88,14 @@ fn main() {
             }
         }
     }
+    // ---- medium-scale deterministic differential runs (not exhaustive; catch scale-dependent defects) ----
+    {
+        let (ms, mv, mj) = checks::medium::run_all(&["cuckoo"], run.thorough(), checks::par::n_threads());
+        run.ev.set("medium_scale_runs", json!({"configurations": mj, "operations": ms.ops, "reference_comparisons": ms.comparisons, "note": "long structured histories on tables of 64..4096 slots against an exact reference; complements the exhaustive tiny-scope search, not part of the exhaustive claim"}));
+        for v in mv {
+            run.violation(v);
+        }
+    }
     run.ev.set("configurations_total", json!(n_cfg));
     run.ev.set("outcome_kinds", json!({"insert Ok": kinds.get(&0), "insert Err(Full)": kinds.get(&2), "delete true": kinds.get(&3), "delete false": kinds.get(&4)}));
     run.ev.set("exhaustive", json!(all_closed));
